@@ -14,7 +14,7 @@ import re
 import string
 
 from ..core import UNKNOWN, AnalysisError, FuncInfo, call_name, get_arg, is_self_attr, norm, walk_no_nested
-from ..paths import cfg_of, node_of, structural_guards
+from ..paths import canon, cfg_of, node_of, structural_guards
 from ..tomrun import run_tom
 
 EXPLANATION = (
@@ -163,8 +163,8 @@ def r07c(ctx):
     ap = [n for n in walk_no_nested(g.node) if isinstance(n, ast.Call) and call_name(n) == "_append" and is_self_attr(n.func)]
     kinds = []
     for a in ap:
-        t = ast.unparse(a.args[0]) if a.args else ""
-        kinds.append("col" if "col" in t.lower() else "row")
+        t = canon(g, a.args[0]) if a.args else ""
+        kinds.append("col" if t.startswith("Column(") else ("row" if t.startswith("Row(") else "?"))
     ok = kinds[:1] == ["col"] and "row" in kinds
     ctx.instance("R07c", f"{g.file}:{g.ident}", f"prefill appends {kinds}", ok=ok)
     if not ok:
